@@ -14,7 +14,7 @@ def plan(tier):
                 continue
             d = ['-DKIND=%d' % kind, '-DNTHR=%d' % nthr, '-DMAXREC=%d' % maxrec]
             nvin = nthr * (1 + maxrec * 3)
-            prof = [[1, 2, 97, 98, 1, 99, 0][:1 + 3 * maxrec] * nthr + [0, 1, 0, 1] * 12, [maxrec, 1, 97, 0, 2, 99, 100][:1 + 3 * maxrec] * nthr + [1, 0, 0, 1, 1, 0] * 8]
+            prof = [[1, 2, 97, 98, 1, 99, 0][:1 + 3 * maxrec] * nthr + [2, 5] * nthr + [0, 1, 0, 1] * 12, [maxrec, 1, 97, 0, 2, 99, 100][:1 + 3 * maxrec] * nthr + [5, 0] * nthr + [1, 0, 0, 1, 1, 0] * 8]
             qs.append(Query('k%d_t%d_r%d' % (kind, nthr, maxrec), d, W, unwind=2, hardcap=nthr * 24 + 4, est_gb=4, timeout=3000 if th else 900, profile=prof, harness_unwind=nthr * 24 + 2,
                             sample={'sink': KINDS[kind], 'threads': nthr, 'records_per_thread': '1..%d' % maxrec, 'record_bytes': '1..2 symbolic', 'schedules': 'all (symbolic scheduler)'}))
     corpus = [(q.defs, p) for q in qs[:3] for p in q.profile]
